@@ -130,6 +130,9 @@ mod exec {
             }
             let p = picks.get(j).copied().unwrap_or(0).rem_euclid(r.len() as i64) as usize;
             j += 1;
+            if std::env::var("C04_DEBUG").is_ok() {
+                eprintln!("ready {:?} -> poll {}", r, r[p]);
+            }
             poll(r[p]);
         }
         panic!("executor did not become idle");
